@@ -1700,6 +1700,12 @@ def _descs(ctx, n_random, n_malformed, depth, n_gt):
     for i in range(n_random // 2):
         descs.append({'family': 'random', 'seed': base + i, 'depth': 2 + (i % 2), 'n_gt': n_gt, 'label': 'random-small',
                       'gen': {'avoid_pf11': 0.93}})
+    base = ctx.fork('zero').getrandbits(48)
+    for i in range(n_random // 4):
+        # more zero repetition counts / empty ranges and more measurement declarations: composites that declare windows
+        # around parts that play nothing
+        descs.append({'family': 'random', 'seed': base + i, 'depth': 3 + (i % 2), 'n_gt': 1, 'label': 'random-zero',
+                      'gen': {'avoid_pf11': 0.93, 'zero_p': 0.3, 'measure_p': 0.8}})
     base = ctx.fork('malformed').getrandbits(48)
     for i in range(n_malformed):
         descs.append({'family': 'malformed', 'seed': base + i, 'n_gt': 0})
@@ -1744,6 +1750,120 @@ def fstr_(x: F) -> str:
     return ptgen.fstr(x)
 
 
+# (no FunctionPT: with duration 0 it does not play nothing -- `build_waveform` returns a zero length FunctionWaveform, which
+#  ends up as a zero length leaf in the program; such programs are outside what `play_samples` can address)
+EMPTY_PARTS = ('const', 'table', 'point', 'rep0', 'for0', 'seq-of-empties', 'amulti')
+CARRIERS = ('rep', 'rep', 'rep-seq', 'rep-rep', 'rep-map', 'seq', 'for')
+CONTEXTS = ('before', 'after', 'between', 'alone', 'in-rep', 'in-for', 'two-carriers')
+
+
+def _empty_part_spec(ekind: str, ckind: str, xkind: str, two: bool) -> dict:
+    """a composite that declares its OWN measurement windows around a body that plays nothing when `z == 0` /
+    `k == 0`, next to parts that play (each with a window of its own)"""
+    def amps(v):
+        return [['A', v]] + ([['B', '0.5 - ' + v]] if two else [])
+
+    def const(dur, v, **kw):
+        return dict({'k': 'const', 'dur': dur, 'amps': amps(v), 'meas': []}, **kw)
+
+    def play(name, mname, idx=None):
+        if idx is not None:
+            return const('1', '0.25 + 0.125*' + idx, id=name, meas=[[mname, '0.25', '0.5']])
+        if two:
+            return const('1', '0.25', id=name, meas=[[mname, '0.25', '0.5']])
+        return {'k': 'table', 'entries': [['A', [['0', '0', 'hold'], ['1', '1', 'linear']]]], 'meas': [[mname, '0.25', '0.5']],
+                'cons': [], 'id': name}
+    if ekind == 'const':
+        e = const('z', '0.125', id='e')
+    elif ekind == 'table':
+        e = {'k': 'table', 'entries': [[c, [['0', v, 'hold'], ['z', v, 'hold']]] for c, v in amps('0.125')], 'meas': [],
+             'cons': [], 'id': 'e'}
+    elif ekind == 'point':
+        e = {'k': 'point', 'chans': ['A', 'B'] if two else ['A'], 'entries': [['0', '0.125', 'hold'], ['z', '0.375', 'linear']],
+             'meas': [], 'cons': [], 'id': 'e'}
+    elif ekind == 'rep0':
+        e = {'k': 'rep', 'body': const('0.5', '0.125'), 'count': 'k', 'meas': [['V', '0', '0.25']], 'cons': [], 'id': 'e'}
+    elif ekind == 'for0':
+        e = {'k': 'for', 'body': const('0.5', '0.125 + i'), 'idx': 'i', 'range': ['0', 'k', '1'], 'meas': [['V', '0', '0.25']],
+             'cons': [], 'id': 'e'}
+    elif ekind == 'seq-of-empties':
+        e = {'k': 'seq', 'subs': [const('z', '0.125'), const('2*z', '0.375', meas=[['V', '0', 'z']])], 'meas': [['V', 'z', '0.25']],
+             'cons': [], 'id': 'e'}
+    else:
+        e = {'k': 'amulti', 'subs': [{'k': 'const', 'dur': 'z', 'amps': [['A', '0.125']], 'meas': []}] +
+             ([{'k': 'const', 'dur': 'z', 'amps': [['B', '0.25']], 'meas': []}] if two else []), 'meas': [['V', '0', 'z']],
+             'cons': [], 'id': 'e'}
+    w = [['W', '0', '0.5']]
+    if ckind == 'rep':
+        r = {'k': 'rep', 'body': e, 'count': 'n', 'meas': w, 'cons': [], 'id': 'r'}
+    elif ckind == 'rep-seq':
+        r = {'k': 'rep', 'body': {'k': 'seq', 'subs': [e, copy.deepcopy(dict(e, id='e2'))], 'meas': [['U', '0', '0.25']],
+                                  'cons': []}, 'count': '3', 'meas': w, 'cons': [], 'id': 'r'}
+    elif ckind == 'rep-rep':
+        r = {'k': 'rep', 'body': {'k': 'rep', 'body': e, 'count': '2', 'meas': [['U', '0', '0.25']], 'cons': [], 'id': 'q'},
+             'count': 'n', 'meas': w, 'cons': [], 'id': 'r'}
+    elif ckind == 'rep-map':
+        r = {'k': 'rep', 'body': {'k': 'map', 'body': e, 'pm': None, 'mm': [['V', 'VV']] if e['meas'] else None, 'cm': None},
+             'count': 'n', 'meas': w, 'cons': [], 'id': 'r'}
+    elif ckind == 'seq':
+        r = {'k': 'seq', 'subs': [e], 'meas': w, 'cons': [], 'id': 'r'}
+    else:
+        pn = 'k' if ekind in ('rep0', 'for0') else 'z'            # the loop index has to be used: the emptiness parameter
+        r = {'k': 'for', 'body': {'k': 'map', 'body': e, 'pm': [[pn, '%s*(j + 1)' % pn]], 'mm': None, 'cm': None}, 'idx': 'j',
+             'range': ['0', 'n', '1'], 'meas': w, 'cons': [], 'id': 'r'}
+
+    def seq(*subs, **kw):
+        return dict({'k': 'seq', 'subs': list(subs), 'meas': [], 'cons': [], 'id': 'top'}, **kw)
+    p1, p2 = play('p1', 'P'), play('p2', 'Q')
+    if xkind == 'before':
+        return seq(r, p1)
+    if xkind == 'after':
+        return seq(p1, r, meas=[['T', '0', '1']])
+    if xkind == 'between':
+        return seq(p1, r, p2)
+    if xkind == 'alone':
+        return r
+    if xkind == 'in-rep':
+        return {'k': 'rep', 'body': seq(r, p1, id='s'), 'count': '2', 'meas': [['T', '0', '1']], 'cons': [], 'id': 'top'}
+    if xkind == 'in-for':
+        return {'k': 'for', 'body': seq(r, play('p1', 'P', 'm'), id='s'), 'idx': 'm', 'range': ['0', '2', '1'], 'meas': [],
+                'cons': [], 'id': 'top'}
+    r2 = copy.deepcopy(r)
+    for node in ptgen.spec_nodes(r2):
+        if node.get('id'):
+            node['id'] += 'b'
+        if node['k'] == 'map':
+            node['mm'] = [[a + 'b', b] for a, b in node['mm']] if node.get('mm') else node.get('mm')
+        else:
+            node['meas'] = [[m[0] + 'b'] + m[1:] for m in node.get('meas') or []]
+    return seq(r, r2, p1)
+
+
+def _empty_part_descs(ctx, n):
+    """targeted family (after seeded change C05-C): repetition / sequence / iteration nodes WITH their own measurement
+    declarations whose body is empty at the chosen parameters (zero duration, zero count / empty range nested inside),
+    placed before / after / between parts that play, alone, inside loops; all subsets as to_single_waveform.  A
+    composite that plays nothing contributes no window under any option set (judge: denote)."""
+    rng = ctx.fork('empty-parts')
+    space = [(e, c, x, two) for e in EMPTY_PARTS for c in sorted(set(CARRIERS)) for x in CONTEXTS for two in (False, True)
+             ]
+    ctx.exhaustive_spaces.append('composites with own measurement windows around a body that is empty at the parameters: %d '
+                                 'empty parts x %d carriers x %d contexts x 1-2 channels = %d trees (quick: %d of them), each '
+                                 'with z = 0 / k = 0 and, for one in four, with a playing body as control'
+                                 % (len(EMPTY_PARTS), len(set(CARRIERS)), len(CONTEXTS), len(space), min(n, len(space))))
+    chosen = space if n >= len(space) else rng.sample(space, n)
+    descs = []
+    for i, (e, c, x, two) in enumerate(chosen):
+        spec = _empty_part_spec(e, c, x, two)
+        params = {'z': 0, 'k': 0, 'n': rng.choice([1, 2, 3])}
+        if rng.random() < 0.25:
+            # control: the body plays.  n <= 2 keeps the iterated durations z*(j + 1) powers of two (exact ramps)
+            params.update({'z': 0.5, 'k': 1, 'n': rng.choice([1, 2])})
+        descs.append({'family': 'given', 'seed': i, 'label': 'empty-parts', 'n_gt': 1, 'max_all': 6, 'n_random': 10,
+                      'case': {'spec': spec, 'params': params, 'cm': {}, 'mm': None, 'single': []}})
+    return descs
+
+
 def _with_ids(rng, spec):
     """identifiers on about half of the nodes of an enumerated nesting"""
     spec = copy.deepcopy(spec)
@@ -1785,6 +1905,7 @@ def run(ctx: core.Ctx):
                                  '<= 3 over two atoms (quick: %d of them)' % (len(ex_all), len(ex)))
     descs += _descs(ctx, ctx.n(150, 4000), ctx.n(24, 400), depth, n_gt)
     descs += _constant_level_descs(ctx, ctx.n(14, 200))
+    descs += _empty_part_descs(ctx, ctx.n(40, 10000))
     recs = run_trees(ctx, descs)
     for rec in recs:
         bad = assess_tree(ctx, rec, rec['replies'])
